@@ -6,7 +6,8 @@
 From Coq Require Import List NArith ZArith Bool Permutation.
 From Verif Require Import Aries.Str Aries.Radix Aries.RadixProofs Aries.MuxProofs
   Aries.SegTrie Aries.SegTrieProofs Aries.Router Aries.RouterProofs
-  Aries.Tiers Aries.TiersProofs Aries.Entry Aries.EntryProofs Aries.AriesGen Gen.AriesSkel Gen.AriesEntry.
+  Aries.Tiers Aries.TiersProofs Aries.Entry Aries.EntryProofs Aries.CtxSeq Aries.CtxSeqProofs
+  Aries.AriesGen Gen.AriesSkel Gen.AriesEntry.
 Import ListNotations.
 Local Open Scope N_scope.
 
@@ -421,3 +422,61 @@ Proof.
   split; [|vm_compute; reflexivity].
   split; intros h [= <-]; apply keeps_preserves; intros c; reflexivity.
 Qed.
+
+(** * Round 3: one context through several routers (the tiers of a ServiceSet) *)
+
+(** [Router.Serve] as regenerated from /repo: when it answers Miss, the
+    routing position of the context is the one it was handed. *)
+Theorem C20_router_miss_restores_context : forall le fuel rs i c,
+  is_miss (fst (serve_ctx gen_dispatch_cond gen_method_reject le gen_router_wrap fuel rs i c)) = true ->
+  snd (serve_ctx gen_dispatch_cond gen_method_reject le gen_router_wrap fuel rs i c) = c.
+Proof. rewrite gen_router_wrap_ok. exact (serve_ctx_miss_restores gen_dispatch_cond gen_method_reject). Qed.
+Print Assumptions C20_router_miss_restores_context.
+
+(** Routers tried one after the other on the SAME context until one does
+    not miss (directly, or as Auth / Resource / Guest / User / Admin of a
+    ServiceSet): the leaves that ran and the final answer are those obtained
+    when every router routes the request's own path, independently of the
+    routers tried before it. *)
+Theorem C20_router_sequence_routes_own_path : forall le fuel rs is c,
+  let '(hs, f, _) := serve_seq gen_dispatch_cond gen_method_reject le gen_router_wrap fuel rs is c in
+  (hs, f) = seq_ref gen_dispatch_cond gen_method_reject le fuel rs is c.
+Proof. exact gen_serve_seq_is_ref. Qed.
+Print Assumptions C20_router_sequence_routes_own_path.
+
+(** Each leaf that ran is the one a single router of the sequence selects
+    for the request's own context (to which [C20_router_serve_spec] applies). *)
+Theorem C20_router_sequence_hits : forall le fuel rs is c t rl,
+  In (t, rl) (fst (seq_ref gen_dispatch_cond gen_method_reject le fuel rs is c)) ->
+  exists i, In i is /\ hit_of (nested gen_dispatch_cond gen_method_reject le fuel rs i c) = [(t, rl)].
+Proof. exact (seq_ref_hits gen_dispatch_cond gen_method_reject). Qed.
+Print Assumptions C20_router_sequence_hits.
+
+(** The wrapper does not change what one [Serve] call answers. *)
+Theorem C20_router_wrapper_same_answer : forall le fuel rs i c,
+  fst (serve_ctx gen_dispatch_cond gen_method_reject le gen_router_wrap fuel rs i c)
+  = nested gen_dispatch_cond gen_method_reject le fuel rs i c.
+Proof.
+  intros. apply serve_ctx_result. rewrite gen_router_wrap_ok. discriminate.
+Qed.
+Print Assumptions C20_router_wrapper_same_answer.
+
+(** The code before the fix (no wrapper): GET /a/b, router 0 with the file
+    "a", router 1 with the file "b" - the handler of "b" runs; the reference
+    (and the deployed code) answer Miss without running anything. *)
+Theorem C20_router_sequence_legacy_refuted :
+  serve_seq dispatch_cond method_reject [] RWPlain 8 ex_rs [0; 1]%nat ex_ctx = ([(2%Z, [])], 0, []) /\
+  seq_ref dispatch_cond method_reject [] 8 ex_rs [0; 1]%nat ex_ctx = ([], 1).
+Proof. exact legacy_seq_refuted. Qed.
+Print Assumptions C20_router_sequence_legacy_refuted.
+
+Example ex_seq_deployed :
+  serve_seq dispatch_cond method_reject [] RWRestoreOnMiss 8 ex_rs [0; 1]%nat ex_ctx
+  = ([], 1, s_a ++ slash :: s_b).
+Proof. exact deployed_seq_example. Qed.
+
+(** A sequence in which the second router does serve: /b. *)
+Example ex_seq_second_serves :
+  serve_seq dispatch_cond method_reject [] RWRestoreOnMiss 8 ex_rs [0; 1]%nat (new_ctx (slash :: s_b) s_get)
+  = ([(2%Z, [])], 0, []).
+Proof. vm_compute. reflexivity. Qed.
